@@ -147,6 +147,24 @@ theorem view_write_through (st : Store) (l : Leaf) (sel : List Nat) (vals : List
     have hij := (List.getElem?_inj hj' hnd).mp this
     exact hni (hij ▸ hj)
 
+/-- **a view of a view is a view of the source**: composing two view operations (`td.permute(...)[0]`,
+`td[idx].select(...)`, …) gives a window on the original storage selected by the composed selector — so
+everything `view_shares` / `view_write_through` say holds between the second result and the source -/
+theorem view_of_view_is_view (l : Leaf) (sel1 sel2 : List Nat) (hr : ∀ i ∈ sel1, i < l.offs.length) :
+    viewOf sel2 (viewOf sel1 l) = viewOf (sel2.filterMap (fun j => sel1[j]?)) l := by
+  have h1 := viewOf_offs_eq l sel1 hr
+  simp only [viewOf, Leaf.mk.injEq, true_and]
+  have h1' : sel1.filterMap (fun i => l.offs[i]?) = sel1.map (fun i => l.offs.getD i 0) := h1
+  rw [h1', List.filterMap_filterMap]
+  apply filterMap_congr_mem
+  intro j _
+  simp only [List.getElem?_map]
+  cases hj : sel1[j]? with
+  | none => simp
+  | some i =>
+    have hi : i < l.offs.length := hr i (List.mem_of_getElem? hj)
+    simp [List.getD, hi]
+
 /-! ## 4. copy class -/
 
 /-- tensors in different storages never observe each other's writes -/
